@@ -40,3 +40,10 @@ check(
     "RNG uniformity is NumPy's; joblib replaced by a sequential map (thread schedules outside); base regressor is a recording stub; float32 query batches outside (rounding).",
     "DESIGN.md 3.C17",
 )
+check(
+    "C14",
+    "differential bounded symbolic execution (SX): the override and scikit-learn's own _word_ngrams on symbolic token/stop-word assignments; CrossHair (z3 strings) for the tuple-vs-joined-string order lemma",
+    "For every document length <=5/7, n-gram range up to 3/5, every assignment of 2/3 words to positions and every stop-word subset (symbolic Bools; stop_words=None separately) the override's n-grams are flat token tuples whose space-joins equal scikit-learn's sequence, for both Traceable classes; CrossHair confirms over all paths that tuple order equals joined-string order for tokens with characters > ' ' (<=2 tokens of <=2 chars), so sorted vocabulary columns coincide.",
+    "The matrix/tf-idf computation is scikit-learn's and is reached only through the stated reduction (sequence + sorted vocabulary); counterexamples are replayed end to end on real vectorizers. Default tokenizer only.",
+    "DESIGN.md 3.C14",
+)
